@@ -1196,6 +1196,76 @@ func init() {
 			p.Tail()
 		}})
 	}
+	// A truncation cut short by a crash (the background thread never ran), then the file is removed, renamed over or cut
+	// again on the recovered server: nobody is freeing it any more, so these requests have to see to all of its blocks.
+	for _, variant := range []string{"remove", "rename-over", "trunc-again", "trunc-zero-remove"} {
+		variant := variant
+		Probes = append(Probes, Probe{"crash-before-background-freeing-then-" + variant, []string{"C05", "C12", "C10"}, 16000, func(p *P) {
+			const B = 4096
+			f := p.Create(p.Root, "f").RFh
+			for i := 0; i < 13; i++ {
+				p.Write(f, i*100*B, 100*B, 2)
+			}
+			p.Create(p.Root, "g")
+			hold := make(chan struct{})
+			Mon.Yield = func(ev string) {
+				if ev != "begin" {
+					return
+				}
+				buf := make([]byte, 8192)
+				n := runtime.Stack(buf, false)
+				if strings.Contains(string(buf[:n]), "shrinker.") && !strings.Contains(string(buf[:n]), "NFSPROC3_") {
+					select {
+					case <-hold:
+					case <-time.After(60 * time.Second):
+					}
+				}
+			}
+			if variant == "trunc-zero-remove" {
+				p.Trunc(f, 0)
+			} else {
+				p.Trunc(f, 2*B+100) // the rest is for the background thread, which is held
+			}
+			img := p.S.D.Clone() // the crash: everything acknowledged is in the journal, the thread has done nothing
+			old := p.S
+			Mon.Yield = nil
+			close(hold)
+			old.WaitIdle()
+			func() { defer func() { recover() }(); old.Shutdown() }()
+			s2, err := Start(img, p.Unst)
+			if err != nil {
+				p.T.Emit(map[string]interface{}{"ev": "fatal", "what": err.Error()})
+				return
+			}
+			s2.Sequential = true
+			s2.wtmax, s2.maxfs = old.wtmax, old.maxfs
+			p.S = s2
+			p.T.Emit(Restart{Ev: "restart", Kind: "clean", Dump: DumpAPI(s2.API, "restarted")})
+			p.T.Emit(TakeSnap(p.S, "recovered", true)) // a half-freed inode is legitimate here
+			switch variant {
+			case "trunc-zero-remove":
+				// the file has size 0 already: REMOVE has nothing to cut and may leave the rest to whoever is handed the number next
+				p.Remove(p.Root, "f")
+				h := p.Create(p.Root, "h").RFh // after a restart the lowest free number is handed out: f's
+				p.Write(h, 0, 100, 2)
+				p.Read(h, 0, 2*B)
+			case "remove":
+				p.Remove(p.Root, "f")
+			case "rename-over":
+				p.Rename(p.Root, "g", p.Root, "f")
+			default:
+				p.Trunc(f, B)
+				p.Read(f, 0, 3*B)
+				p.Trunc(f, 3*B)
+				p.Read(f, 0, 3*B)
+			}
+			if p.Idle() {
+				p.T.Emit(TakeSnap(p.S, "run", true))
+				p.Dump()
+				p.Tail()
+			}
+		}})
+	}
 	// A SYMLINK whose target needs two blocks when one is free: refused without effect, or stored completely.
 	Probes = append(Probes, Probe{"symlink-target-with-one-block-free", []string{"C09", "C02", "C05"}, 1700, func(p *P) {
 		filler := p.Create(p.Root, "filler").RFh
